@@ -10,10 +10,14 @@
 //
 // Watched on the implementation alone (vh.Direct): panic, data race (exit code 66 / "WARNING: DATA
 // RACE" / the runtime's "fatal error: concurrent map writes"), any other runtime fatal error, a call
-// or Close outliving the watchdog, goroutines left after Close, a cancelled search
-// that takes too long.  Sent to Coq: the per-goroutine log of (operation, phase, result class)
+// or Close outliving the watchdog, goroutines left after Close, a search that returns the context's
+// error (or none) too long after the later of the cancellation and its entry into the index (a
+// search that waited for the index lock behind Close and returned "index is closed" is judged by the
+// closed-index rules instead; the allowance grows with the scheduling latency measured in the
+// child meanwhile).  Sent to Coq: the per-goroutine log of (operation, phase, result class)
 // judged by Protocol/Corr.v's spec, the deterministic cancellation experiment judged by the
-// collector model, and (scorch-disk) the hook-event trace judged by the protocol monitor.
+// collector model, and (scorch-disk) the hook-event trace judged by the protocol monitor (whose
+// instance has one hidden ForceMerge caller per ForceMerge call issued).
 package main
 
 import (
@@ -53,9 +57,7 @@ type In struct {
 	Copiers     int `json:"copiers,omitempty"`
 	Writers     int `json:"writers,omitempty"`
 	WriterNapUS int `json:"writer_nap_us,omitempty"`
-	// the reading goroutine also forces merges.  The hook-event trace of such a run is not handed to
-	// the protocol monitor: a ForceMerge request wakes the merger without the persister's
-	// notification, and the monitor's instance (CorrTrace.trace_ok) has no ForceMerge callers
+	// the reading goroutine also forces merges
 	ForceMerges bool `json:"force_merges,omitempty"`
 }
 
@@ -145,7 +147,13 @@ func gen(f vh.Flags, r *vrand.R, emit func(In)) {
 	for k := 0; k < nc; k++ {
 		cfgs := []string{"scorch-mem", "udc-gtreap", "scorch-disk"}
 		nd := r.Range(1100, 3300)
-		emit(In{Mode: "cancel", Layout: sw.Layout{Config: cfgs[k%len(cfgs)], Unsafe: true}, Seed: r.U64(), NDocs: nd, CancelAt: r.Range(1, nd+200)})
+		seed, at := r.U64(), r.Range(1, nd+200)
+		if k%2 == 0 && at > 1024 {
+			// every other case cancels within the first CheckDoneEvery (1024) hits, more hits follow, and
+			// so the collector must notice (a collector that does not look at the context is caught)
+			at = at%1024 + 1
+		}
+		emit(In{Mode: "cancel", Layout: sw.Layout{Config: cfgs[k%len(cfgs)], Unsafe: true}, Seed: seed, NDocs: nd, CancelAt: at})
 	}
 	// the DropFileWriterIDs error path (outside C11's operation list; its own class)
 	emit(In{Mode: "dropwriter", Layout: sw.Layout{Config: "scorch-disk", Unsafe: true}, Seed: r.U64()})
@@ -262,8 +270,18 @@ func exec1(in In) vh.Result {
 			return cf.ListOf(l, func(o opRec) cf.T { return cf.App("Op", cf.T(opNames[o.K]), cf.Int(o.Ph), cf.Int(o.R)) })
 		})
 		cases := []cf.T{cf.App("CLog", logs)}
-		if in.Layout.Config == "scorch-disk" && len(out.Events) > 0 && !(in.Mode == "backup" && in.ForceMerges) {
-			cases = append(cases, cf.App("CTrace", cf.Bool(out.Safe), cf.ListOf(out.Events, evTerm)))
+		if in.Layout.Config == "scorch-disk" && len(out.Events) > 0 {
+			// ForceMerge has no hook: the monitor's instance gets one (hidden) ForceMerge caller machine
+			// per call that was issued
+			nfm := 0
+			for _, l := range out.Logs {
+				for _, o := range l {
+					if o.K == "forcemerge" {
+						nfm++
+					}
+				}
+			}
+			cases = append(cases, cf.App("CTrace", cf.Bool(out.Safe), cf.Int(nfm), cf.ListOf(out.Events, evTerm)))
 			res.Hist = append(res.Hist, "traced")
 		}
 		res.Term = cf.App("CMulti", cf.List(cases))
@@ -426,8 +444,9 @@ func main() {
 		CheckFn:   "CorrTrace.check",
 		ExplainFn: "CorrTrace.explain",
 		Rule: "stress: 5-8 goroutines issue random public operations (Index, Delete, Batch, SetInternal, Search, Search with a 0-3 ms deadline, SearchInContext cancelled after 0-500 us, Document, DocCount, FieldDict, Fields, GetInternal, Stats/StatsMap, ForceMerge via Advanced, CopyTo) on scorch-disk (4 option variants, safe/unsafe), scorch-mem and upsidedown (gtreap, moss, boltdb), with seeded delays of up to 1.5 ms at every scorch hook point; Close is issued after 120-700 ms by 1-3 concurrent closers, optionally once more afterwards, and the workers go on for at least 3 operations each after it returned; every run is a child process built with -race. " +
-			"backup (scorch-disk, small persister / merge-plan options, numSnapshotsToKeep 1): 3-4 goroutines call CopyTo to distinct directories in tight loops, two calls of three entered together through a gate, while 2-3 writers issue small batches, updates and deletions (pausing up to 0.5-4 ms) and one goroutine searches, counts and (every other run; the hook-event trace of the runs without forced merges goes to the protocol monitor) forces merges; Close after 0.5-0.9 s (later, up to 2 s, while fewer than 4 rounds of copiers entering together or fewer than 2 files removed by the purger have been seen), all go on for at least 4 operations afterwards; a runtime 'fatal error: concurrent map ...' of the child counts as a data race. " +
-			"close-at: Close is issued exactly when a background loop reaches a named hook point (persist_prepared, merge_start, persist_pick, ...) and that goroutine is held for 40 ms. cancel: n = 1100-3300 matching documents, the context is cancelled by the hit handler at its c-th call; handled hits and the result are compared with the collector model. " +
+			"backup (scorch-disk, small persister / merge-plan options, numSnapshotsToKeep 1): 3-4 goroutines call CopyTo to distinct directories in tight loops, two calls of three entered together through a gate, while 2-3 writers issue small batches, updates and deletions (pausing up to 0.5-4 ms) and one goroutine searches, counts and (every other run) forces merges; Close after 0.5-0.9 s (later, up to 2 s, while fewer than 4 rounds of copiers entering together or fewer than 2 files removed by the purger have been seen), all go on for at least 4 operations afterwards; a runtime 'fatal error: concurrent map ...' of the child counts as a data race. " +
+			"close-at: Close is issued exactly when a background loop reaches a named hook point (persist_prepared, merge_start, persist_pick, ...) and that goroutine is held for 40 ms. cancel: n = 1100-3300 matching documents, the context is cancelled by the hit handler at its c-th call (c in 1..n+200; in every other case c <= 1024, so that the collector must notice); handled hits and the result are compared with the collector model. " +
+			"A search that returned the context's error or none more than max(2 s, 20 x the worst goroutine wake-up latency measured in the child meanwhile) after the later of the cancellation and its entry into the index (first look at the context's values, which indexImpl does right after taking the read lock) is reported as cancel-slow; hook-event traces go to the protocol monitor with one hidden ForceMerge caller machine per ForceMerge call issued. " +
 			"Non-trivial: (stress) at least 3 operations were started after Close returned and at least one overlapped it; (backup) at least 2 rounds in which all copiers entered CopyTo together, at least 2 CopyTo calls in progress at one moment, the purger removed at least one segment file during the run and at least 3 operations were started after Close returned; (close-at) Close was issued at the hook; (cancel) the search was cancelled",
 		ShardSize: 4,
 		Workers:   2,
